@@ -84,7 +84,7 @@ def judge(case, g, text, obs, seed):
     if not user:
         equal = RA.veq(RA.ev(old_term), v)
         if equal and "fix" in cats:
-            mm("fix-although-equal", ["C05"], {"positional": RA._has_positional(tm)})
+            mm("fix-although-equal", ["C05"], {"positional": RA._has_positional(tm), "pos_class": RA.has_tag(tm, {"ct"}) and tm.get("c") == RA.POS_CLASS})
         if not equal and "fix" not in cats:
             mm("no-fix-although-unequal", ["C05"], {"positional": RA._has_positional(tm)})
     # --- nothing approved, nothing written (C04) / only approved categories
